@@ -1787,6 +1787,11 @@ func parseCertificate(in *certificate) (*Certificate, error) {
 					}
 					out.KeyUsage = KeyUsage(usage)
 					continue
+				} else if !asn1.AllowPermissiveParsing {
+					// ZCrypto - a keyUsage value that only the strict DER checks refuse
+					// must not be skipped silently: permissive mode decodes it, and the
+					// two modes would both succeed with different certificates.
+					return nil, err
 				}
 			case 19:
 				// RFC 5280, 4.2.1.9
@@ -1799,6 +1804,9 @@ func parseCertificate(in *certificate) (*Certificate, error) {
 					out.MaxPathLen = constraints.MaxPathLen
 					out.MaxPathLenZero = out.MaxPathLen == 0
 					continue
+				} else if !asn1.AllowPermissiveParsing {
+					// ZCrypto - see keyUsage above.
+					return nil, err
 				}
 			case 17:
 				out.OtherNames, out.DNSNames, out.EmailAddresses,
